@@ -53,6 +53,7 @@ type Contract struct {
 	Params    []string // optional renaming of params (iface / assume contracts)
 	Results   []string
 	Requires  []*Clause
+	Assumes   []*Clause // entry assumptions that callers are NOT asked to establish (listed as unchecked)
 	Ensures   []*Clause
 	Defines   []*Clause // definitional extension on a fresh result (ghost define, DESIGN §3.5)
 	Panics    []*Clause // panics when C
@@ -109,7 +110,7 @@ type ContractFile struct {
 }
 
 var headRe = regexp.MustCompile(`^(func|iface|assume|type|spec|uninterpreted|axiom|lemma)\b\s*(.*)$`)
-var clauseKw = map[string]bool{"defines": true, "requires": true, "ensures": true, "panics": true, "split": true, "loop": true, "modifies": true,
+var clauseKw = map[string]bool{"assumes": true, "defines": true, "requires": true, "ensures": true, "panics": true, "split": true, "loop": true, "modifies": true,
 	"immutable": true, "invariant": true, "view": true, "ghost": true, "mode": true, "inline": true, "refines": true,
 	"pure": true, "property": true, "nopanic": true, "safety": true, "havoc": true, "fresh": true, "opt": true}
 
@@ -281,6 +282,8 @@ func ParseContractFile(path, pkgPath string) (cf *ContractFile, err error) {
 		switch kw {
 		case "requires":
 			cur.Requires = append(cur.Requires, mustClause(rest, where))
+		case "assumes":
+			cur.Assumes = append(cur.Assumes, mustClause(rest, where))
 		case "ensures":
 			cur.Ensures = append(cur.Ensures, mustClause(rest, where))
 		case "defines":
